@@ -145,3 +145,15 @@ def from_jose(jkey) -> RKey:
         return RKey("oct", k=bytes(jkey.raw_value))
     raw = jkey.raw_value
     return rk.from_crypto(raw)
+
+
+def to_jose_fast(key: RKey, private: bool = True, params: dict | None = None):
+    """like to_jose(form='jwk') but RSA keys are wrapped natively (importing an RSA private JWK costs ~50 ms of key checks)"""
+    if key.kty != "RSA":
+        return to_jose(key, private, "jwk", params)
+    from joserfc.jwk import RSAKey
+    p = dict(key.params)
+    if params:
+        p.update(params)
+    raw = key.priv if (private and key.priv is not None) else key.pub
+    return RSAKey(raw, raw, p or None)
